@@ -550,7 +550,7 @@ package mcp
 //@   ensures[C03,C06 json-responder-writes-a-status-unless-it-fails] ret == nil ==> status(w) != 0
 //@   ensures[C04 no-session-header-when-stateless] r.isStateless ==> hval(w.Header(), "Mcp-Session-Id") == old(hval(w.Header(), "Mcp-Session-Id"))
 //@ func sseResponder.respond
-//@   modifies *, status(w), hval
+//@   modifies *, status(w), hval, gens, lastgen, lastgenw
 //@   ensures[C03,C06 sse-responder-writes-a-status-unless-it-fails] ret == nil ==> status(w) != 0
 //@   ensures[C04 no-session-header-when-stateless] r.isStateless ==> hval(w.Header(), "Mcp-Session-Id") == old(hval(w.Header(), "Mcp-Session-Id"))
 //@ type jsonResponder
